@@ -1,6 +1,6 @@
 // Kani obligations for the Dir-level glue of src/dir.rs: the real body of Dir::check_for_existence checked against the
 // contracts of its callees (find_entry, ShortNameGenerator::generate, ShortNameGenerator::next_iteration).
-// @needs dir,fs,boot_sector
+// @needs dir,fs,boot_sector,file,dir_entry
 #![allow(dead_code, unused_imports, unused_variables, unused_mut)]
 use super::*;
 use crate::verif_common::*;
@@ -92,4 +92,343 @@ fn existence_scan_protocol() {
     kani::cover!(gens == 3);
     kani::cover!(gens == 1 && finds == 1);
     kani::cover!(finds == 2 && gens == 1);
+}
+
+// ---- C03 / C18: new entries: stamps of create_sfn_entry, wiring of create_file / create_dir ----
+
+fn t10(t: crate::time::DateTime) -> crate::time::DateTime {
+    crate::time::DateTime::new(t.date, crate::time::Time::new(t.time.hour, t.time.min, t.time.sec, t.time.millis / 10 * 10))
+}
+fn t2s(t: crate::time::DateTime) -> crate::time::DateTime {
+    crate::time::DateTime::new(t.date, crate::time::Time::new(t.time.hour, t.time.min, t.time.sec - t.time.sec % 2, 0))
+}
+fn dt_eq(a: crate::time::DateTime, b: crate::time::DateTime) -> bool {
+    a.date == b.date && a.time == b.time
+}
+
+// @obl props=C03,C18 tier=quick fns=Dir::create_sfn_entry
+// @desc forall provider times (every valid date and time of day), alias bytes, attribute bytes and first clusters valid for the FAT type (three fixtures): the short entry of a new file or directory carries the alias and attributes given, size 0, the first cluster given, and all three stamps taken from the provider at that moment: creation to 10 ms, modification to 2 s, access date exact
+#[kani::proof]
+#[kani::unwind(13)]
+fn create_sfn_entry_contract() {
+    let sel: u8 = kani::any();
+    kani::assume(sel < 3);
+    let bpb = match sel {
+        0 => crate::fs::verif_kani::bpb_fat12(),
+        1 => crate::fs::verif_kani::bpb_fat16(),
+        _ => crate::fs::verif_kani::bpb_fat32(),
+    };
+    let max = bpb.total_clusters() + 2;
+    let tp = SymTime::any();
+    let now = tp.dt;
+    let fs = crate::fs::verif_kani::mk_fs_plain(NdDev::read_only(), bpb, FsStatusFlags { dirty: false, io_error: false }, crate::fs::verif_kani::opts(false, tp));
+    // (the root directory value of a FAT12/16 volume; create_sfn_entry only uses self.fs)
+    let dir = Dir::new(DirRawStream::File(File::new(Some(2), None, &fs)), &fs);
+    let alias: [u8; 11] = kani::any();
+    let attrs = FileAttributes::from_bits_truncate(kani::any());
+    let first: Option<u32> = if kani::any() { Some(kani::any()) } else { None };
+    if let Some(c) = first {
+        kani::assume(c >= 2 && c < max);
+    }
+    let e = dir.create_sfn_entry(alias, attrs, first);
+    assert!(*e.name() == alias);
+    assert!(crate::dir_entry::verif_kani::d_attrs(&e) == attrs.bits());
+    assert!(crate::dir_entry::verif_kani::d_size_raw(&e) == 0);
+    assert!(e.first_cluster(fs.fat_type()) == first);
+    assert!(dt_eq(crate::dir_entry::verif_kani::d_created(&e), t10(now)));
+    assert!(dt_eq(crate::dir_entry::verif_kani::d_modified(&e), t2s(now)));
+    assert!(crate::dir_entry::verif_kani::d_accessed(&e) == now.date);
+    assert!(fs.disk.borrow().nlog == 0);
+    kani::cover!(first == Some(0x12345) && now.time.sec == 59);
+    core::mem::forget(dir);
+    core::mem::forget(fs);
+}
+
+#[derive(Clone)]
+struct WrRec {
+    name_len: usize,
+    name0: u8,
+    name1: u8,
+    data: Option<DirFileEntryData>,
+    dir_first: Option<u32>,
+    dir_is_root: bool,
+}
+const WR_NONE: WrRec = WrRec { name_len: 0, name0: 0, name1: 0, data: None, dir_first: None, dir_is_root: false };
+static mut WR_LOG: [WrRec; 3] = [WR_NONE, WR_NONE, WR_NONE];
+static mut WR_N: usize = 0;
+static mut WR_FAIL_AT: usize = 99;
+static mut G_CFE_ALIAS: [u8; 11] = [0; 11];
+static mut G_CFE_ISDIR: Option<Option<bool>> = None;
+static mut G_ALLOC: Option<(Option<u32>, bool)> = None;
+static mut G_ALLOC_RET: Option<u32> = None;
+
+/// contract of Dir::write_entry as its callers use it: the entry is stored under `name` in THIS directory and the
+/// descriptor returned carries the entry as given (or an error, at the call the harness chooses)
+fn stub_write_entry<'a, IO: ReadWriteSeek, TP: TimeProvider, OCC: OemCpConverter>(
+    this: &Dir<'a, IO, TP, OCC>,
+    name: &str,
+    raw_entry: DirFileEntryData,
+) -> Result<DirEntry<'a, IO, TP, OCC>, Error<IO::Error>>
+where
+    'a: 'a,
+{
+    let n = unsafe { WR_N };
+    let b = name.as_bytes();
+    let rec = WrRec {
+        name_len: b.len(),
+        name0: if b.len() > 0 { b[0] } else { 0 },
+        name1: if b.len() > 1 { b[1] } else { 0 },
+        data: Some(raw_entry.clone()),
+        dir_first: this.stream.first_cluster(),
+        dir_is_root: this.stream.is_root_dir(),
+    };
+    unsafe {
+        if n < 3 {
+            WR_LOG[n] = rec;
+        }
+        WR_N = n + 1;
+    }
+    if n == unsafe { WR_FAIL_AT } {
+        return Err(Error::NotEnoughSpace);
+    }
+    let short_name = ShortName::new(raw_entry.name());
+    Ok(DirEntry {
+        data: raw_entry,
+        short_name,
+        #[cfg(feature = "lfn")]
+        lfn_utf16: Dir::<'a, IO, TP, OCC>::encode_lfn_utf16(""),
+        entry_pos: 0x4000,
+        offset_range: (64, 160),
+        fs: this.fs,
+    })
+}
+
+/// contract of Dir::check_for_existence (name not present): the alias to use
+fn stub_cfe_fresh<'a, IO: ReadWriteSeek, TP: TimeProvider, OCC: OemCpConverter>(
+    _this: &Dir<'a, IO, TP, OCC>,
+    _name: &str,
+    is_dir: Option<bool>,
+) -> Result<DirEntryOrShortName<'a, IO, TP, OCC>, Error<IO::Error>>
+where
+    'a: 'a,
+{
+    unsafe { G_CFE_ISDIR = Some(is_dir) };
+    Ok(DirEntryOrShortName::ShortName(unsafe { G_CFE_ALIAS }))
+}
+
+/// contract of FileSystem::alloc_cluster: a cluster of the volume (chosen by the harness) or no space
+fn stub_fs_alloc<IO: ReadWriteSeek, TP, OCC>(_fs: &FileSystem<IO, TP, OCC>, prev: Option<u32>, zero: bool) -> Result<u32, Error<IO::Error>> {
+    unsafe { G_ALLOC = Some((prev, zero)) };
+    match unsafe { G_ALLOC_RET } {
+        Some(c) => Ok(c),
+        None => Err(Error::NotEnoughSpace),
+    }
+}
+
+fn wiring_bpb(sel: u8) -> crate::boot_sector::BiosParameterBlock {
+    if sel == 0 {
+        crate::fs::verif_kani::bpb_fat16()
+    } else {
+        crate::fs::verif_kani::bpb_fat32()
+    }
+}
+
+fn wiring_fs(sel: u8) -> FileSystem<NdDev, SymTime, crate::fs::LossyOemCpConverter> {
+    let bpb = wiring_bpb(sel);
+    crate::fs::verif_kani::mk_fs_plain(NdDev::read_only(), bpb, FsStatusFlags { dirty: false, io_error: false }, crate::fs::verif_kani::opts(false, SymTime::fixed()))
+}
+
+// (cases in which the write of "." or ".." fails are not registered: dropping the half-made directory handle on the
+// error path is intractable for the model checker here; nothing is claimed for them)
+fn create_dir_case(sel: u8, fail_at: usize) {
+    kani::assume(sel < 3);
+    let fs = wiring_fs(if sel == 0 { 0 } else { 1 });
+    let max = wiring_bpb(if sel == 0 { 0 } else { 1 }).total_clusters() + 2;
+    let parent_first: u32 = kani::any();
+    kani::assume(parent_first >= 2 && parent_first < max);
+    // sel 0: FAT16 root (fixed region); 1: FAT32 root (a chain, but still "the root"); 2: FAT32 subdirectory
+    let parent = match sel {
+        0 | 1 => fs.root_dir(),
+        _ => Dir::new(DirRawStream::File(File::new(Some(parent_first), Some(crate::dir_entry::verif_kani::ed_new(crate::dir_entry::verif_kani::any_sfn_data(), 0x2000, false)), &fs)), &fs),
+    };
+    let alias: [u8; 11] = kani::any();
+    let newc: Option<u32> = if kani::any() { Some(kani::any()) } else { None };
+    if let Some(c) = newc {
+        kani::assume(c >= 2 && c < max);
+    }
+    kani::assume(fail_at <= 3);
+    unsafe {
+        G_CFE_ALIAS = alias;
+        G_ALLOC_RET = newc;
+        WR_FAIL_AT = fail_at;
+    }
+    let r = parent.create_dir("New Folder");
+    let n = unsafe { WR_N };
+    assert!(unsafe { G_CFE_ISDIR } == Some(Some(true)));
+    assert!(unsafe { G_ALLOC } == Some((None, true)));
+    match newc {
+        None => {
+            assert!(matches!(r, Err(Error::NotEnoughSpace)) && n == 0);
+        }
+        Some(c) => {
+            let log = unsafe { WR_LOG.clone() };
+            // 1st: the entry in the parent
+            assert!(n >= 1);
+            let e0 = log[0].data.as_ref().unwrap();
+            assert!(log[0].name_len == 10 && log[0].name0 == b'N');
+            assert!(*e0.name() == alias && e0.is_dir() && e0.first_cluster(fs.fat_type()) == Some(c));
+            assert!(log[0].dir_is_root == (sel != 2));
+            if sel == 2 {
+                assert!(log[0].dir_first == Some(parent_first));
+            }
+            if fail_at == 0 {
+                assert!(r.is_err() && n == 1);
+            } else {
+                // 2nd: "." in the new directory, pointing at itself
+                assert!(n >= 2);
+                let e1 = log[1].data.as_ref().unwrap();
+                assert!(log[1].name_len == 1 && log[1].name0 == b'.');
+                assert!(*e1.name() == *b".          " && e1.is_dir() && e1.first_cluster(fs.fat_type()) == Some(c));
+                assert!(log[1].dir_first == Some(c) && !log[1].dir_is_root);
+                if fail_at == 1 {
+                    assert!(r.is_err() && n == 2);
+                } else {
+                    // 3rd: ".." in the new directory, pointing at the parent (0 for the root)
+                    assert!(n == 3);
+                    let e2 = log[2].data.as_ref().unwrap();
+                    assert!(log[2].name_len == 2 && log[2].name0 == b'.' && log[2].name1 == b'.');
+                    assert!(*e2.name() == *b"..         " && e2.is_dir());
+                    assert!(e2.first_cluster(fs.fat_type()) == if sel == 2 { Some(parent_first) } else { None });
+                    assert!(log[2].dir_first == Some(c) && !log[2].dir_is_root);
+                    if fail_at == 2 {
+                        assert!(r.is_err());
+                    } else {
+                        assert!(r.is_ok());
+                        let d = r.as_ref().unwrap();
+                        assert!(d.stream.first_cluster() == Some(c) && !d.stream.is_root_dir());
+                    }
+                }
+            }
+        }
+    }
+    // (dropping a directory handle on an error path flushes the device; nothing is written)
+    assert!(fs.disk.borrow().nwrites == 0);
+    kani::cover!(r.is_ok() == (fail_at == 3));
+    core::mem::forget(r);
+    core::mem::forget(parent);
+    core::mem::forget(fs);
+}
+
+// @obl props=C03,C18 tier=quick fns=Dir::create_dir timeout=900
+// @bound parent = the root directory of a FAT16 fixture; every write succeeds (or the allocation fails); one concrete name; alias bytes and the allocated cluster symbolic
+// @desc wiring of Dir::create_dir for a name that does not exist (real body; check_for_existence, FileSystem::alloc_cluster and write_entry replaced by their contracts): existence is checked asking for a directory; exactly one cluster is allocated, as the start of a new chain and zero-filled (so the new directory ends at its first slot); the entry written into THIS directory has the alias from the existence check, the DIRECTORY attribute and the allocated cluster; then "." (pointing at the new directory's own cluster) and ".." (pointing at the parent's first cluster, 0 when the parent is the root, also on FAT32) are written into the NEW directory, both with the DIRECTORY attribute and the dot aliases; the directory returned is the new one; an allocation failure writes nothing, and an entry-write failure is returned
+#[kani::proof]
+#[kani::unwind(13)]
+#[kani::stub(crate::dir::Dir::check_for_existence, stub_cfe_fresh)]
+#[kani::stub(crate::dir::Dir::write_entry, stub_write_entry)]
+#[kani::stub(crate::fs::FileSystem::alloc_cluster, stub_fs_alloc)]
+fn create_dir_wiring_p0_f3() {
+    create_dir_case(0, 3);
+}
+
+// @obl props=C03,C18 tier=quick fns=Dir::create_dir timeout=900
+// @bound parent = the root directory of a FAT16 fixture; the write of the new entry fails (or the allocation fails); one concrete name; alias bytes and the allocated cluster symbolic
+// @desc wiring of Dir::create_dir for a name that does not exist (real body; check_for_existence, FileSystem::alloc_cluster and write_entry replaced by their contracts): existence is checked asking for a directory; exactly one cluster is allocated, as the start of a new chain and zero-filled (so the new directory ends at its first slot); the entry written into THIS directory has the alias from the existence check, the DIRECTORY attribute and the allocated cluster; then "." (pointing at the new directory's own cluster) and ".." (pointing at the parent's first cluster, 0 when the parent is the root, also on FAT32) are written into the NEW directory, both with the DIRECTORY attribute and the dot aliases; the directory returned is the new one; an allocation failure writes nothing, and an entry-write failure is returned
+#[kani::proof]
+#[kani::unwind(13)]
+#[kani::stub(crate::dir::Dir::check_for_existence, stub_cfe_fresh)]
+#[kani::stub(crate::dir::Dir::write_entry, stub_write_entry)]
+#[kani::stub(crate::fs::FileSystem::alloc_cluster, stub_fs_alloc)]
+fn create_dir_wiring_p0_f0() {
+    create_dir_case(0, 0);
+}
+
+// @obl props=C03,C18 tier=quick fns=Dir::create_dir timeout=900
+// @bound parent = the root directory of a FAT32 fixture; every write succeeds (or the allocation fails); one concrete name; alias bytes and the allocated cluster symbolic
+// @desc wiring of Dir::create_dir for a name that does not exist (real body; check_for_existence, FileSystem::alloc_cluster and write_entry replaced by their contracts): existence is checked asking for a directory; exactly one cluster is allocated, as the start of a new chain and zero-filled (so the new directory ends at its first slot); the entry written into THIS directory has the alias from the existence check, the DIRECTORY attribute and the allocated cluster; then "." (pointing at the new directory's own cluster) and ".." (pointing at the parent's first cluster, 0 when the parent is the root, also on FAT32) are written into the NEW directory, both with the DIRECTORY attribute and the dot aliases; the directory returned is the new one; an allocation failure writes nothing, and an entry-write failure is returned
+#[kani::proof]
+#[kani::unwind(13)]
+#[kani::stub(crate::dir::Dir::check_for_existence, stub_cfe_fresh)]
+#[kani::stub(crate::dir::Dir::write_entry, stub_write_entry)]
+#[kani::stub(crate::fs::FileSystem::alloc_cluster, stub_fs_alloc)]
+fn create_dir_wiring_p1_f3() {
+    create_dir_case(1, 3);
+}
+
+// @obl props=C03,C18 tier=quick fns=Dir::create_dir timeout=900
+// @bound parent = the root directory of a FAT32 fixture; the write of the new entry fails (or the allocation fails); one concrete name; alias bytes and the allocated cluster symbolic
+// @desc wiring of Dir::create_dir for a name that does not exist (real body; check_for_existence, FileSystem::alloc_cluster and write_entry replaced by their contracts): existence is checked asking for a directory; exactly one cluster is allocated, as the start of a new chain and zero-filled (so the new directory ends at its first slot); the entry written into THIS directory has the alias from the existence check, the DIRECTORY attribute and the allocated cluster; then "." (pointing at the new directory's own cluster) and ".." (pointing at the parent's first cluster, 0 when the parent is the root, also on FAT32) are written into the NEW directory, both with the DIRECTORY attribute and the dot aliases; the directory returned is the new one; an allocation failure writes nothing, and an entry-write failure is returned
+#[kani::proof]
+#[kani::unwind(13)]
+#[kani::stub(crate::dir::Dir::check_for_existence, stub_cfe_fresh)]
+#[kani::stub(crate::dir::Dir::write_entry, stub_write_entry)]
+#[kani::stub(crate::fs::FileSystem::alloc_cluster, stub_fs_alloc)]
+fn create_dir_wiring_p1_f0() {
+    create_dir_case(1, 0);
+}
+
+// @obl props=C03,C18 tier=quick fns=Dir::create_dir timeout=900
+// @bound parent = a FAT32 subdirectory with any first cluster; every write succeeds (or the allocation fails); one concrete name; alias bytes and the allocated cluster symbolic
+// @desc wiring of Dir::create_dir for a name that does not exist (real body; check_for_existence, FileSystem::alloc_cluster and write_entry replaced by their contracts): existence is checked asking for a directory; exactly one cluster is allocated, as the start of a new chain and zero-filled (so the new directory ends at its first slot); the entry written into THIS directory has the alias from the existence check, the DIRECTORY attribute and the allocated cluster; then "." (pointing at the new directory's own cluster) and ".." (pointing at the parent's first cluster, 0 when the parent is the root, also on FAT32) are written into the NEW directory, both with the DIRECTORY attribute and the dot aliases; the directory returned is the new one; an allocation failure writes nothing, and an entry-write failure is returned
+#[kani::proof]
+#[kani::unwind(13)]
+#[kani::stub(crate::dir::Dir::check_for_existence, stub_cfe_fresh)]
+#[kani::stub(crate::dir::Dir::write_entry, stub_write_entry)]
+#[kani::stub(crate::fs::FileSystem::alloc_cluster, stub_fs_alloc)]
+fn create_dir_wiring_p2_f3() {
+    create_dir_case(2, 3);
+}
+
+// @obl props=C03,C18 tier=quick fns=Dir::create_dir timeout=900
+// @bound parent = a FAT32 subdirectory with any first cluster; the write of the new entry fails (or the allocation fails); one concrete name; alias bytes and the allocated cluster symbolic
+// @desc wiring of Dir::create_dir for a name that does not exist (real body; check_for_existence, FileSystem::alloc_cluster and write_entry replaced by their contracts): existence is checked asking for a directory; exactly one cluster is allocated, as the start of a new chain and zero-filled (so the new directory ends at its first slot); the entry written into THIS directory has the alias from the existence check, the DIRECTORY attribute and the allocated cluster; then "." (pointing at the new directory's own cluster) and ".." (pointing at the parent's first cluster, 0 when the parent is the root, also on FAT32) are written into the NEW directory, both with the DIRECTORY attribute and the dot aliases; the directory returned is the new one; an allocation failure writes nothing, and an entry-write failure is returned
+#[kani::proof]
+#[kani::unwind(13)]
+#[kani::stub(crate::dir::Dir::check_for_existence, stub_cfe_fresh)]
+#[kani::stub(crate::dir::Dir::write_entry, stub_write_entry)]
+#[kani::stub(crate::fs::FileSystem::alloc_cluster, stub_fs_alloc)]
+fn create_dir_wiring_p2_f0() {
+    create_dir_case(2, 0);
+}
+
+// @obl props=C03,C18 tier=quick fns=Dir::create_file timeout=900
+// @bound root directory of a FAT16 fixture; one concrete name; alias bytes symbolic
+// @desc wiring of Dir::create_file for a name that does not exist (real body; check_for_existence and write_entry replaced by their contracts): existence is checked asking for a file; no cluster is allocated; exactly one entry is written into THIS directory: alias from the existence check, no attribute bits, size 0, no first cluster; the File returned is empty, at offset 0, and bound to that entry (so later size / cluster / stamp updates go to it)
+#[kani::proof]
+#[kani::unwind(13)]
+#[kani::stub(crate::dir::Dir::check_for_existence, stub_cfe_fresh)]
+#[kani::stub(crate::dir::Dir::write_entry, stub_write_entry)]
+#[kani::stub(crate::fs::FileSystem::alloc_cluster, stub_fs_alloc)]
+fn create_file_wiring() {
+    let fs = wiring_fs(0);
+    let parent = fs.root_dir();
+    let alias: [u8; 11] = kani::any();
+    let fail: bool = kani::any();
+    unsafe {
+        G_CFE_ALIAS = alias;
+        WR_FAIL_AT = if fail { 0 } else { 99 };
+    }
+    let r = parent.create_file("notes.text");
+    assert!(unsafe { G_CFE_ISDIR } == Some(Some(false)));
+    assert!(unsafe { G_ALLOC }.is_none());
+    assert!(unsafe { WR_N } == 1);
+    let log = unsafe { WR_LOG.clone() };
+    let e0 = log[0].data.as_ref().unwrap();
+    assert!(log[0].name_len == 10 && log[0].name0 == b'n' && log[0].dir_is_root);
+    assert!(*e0.name() == alias && !e0.is_dir() && crate::dir_entry::verif_kani::d_attrs(e0) == 0);
+    assert!(e0.size() == Some(0) && e0.first_cluster(fs.fat_type()).is_none());
+    if fail {
+        assert!(r.is_err());
+    } else {
+        let f = r.as_ref().unwrap();
+        assert!(crate::file::verif_kani::file_cursor(f) == (None, None, 0));
+        let ed = crate::file::verif_kani::file_entry(f).unwrap();
+        assert!(crate::dir_entry::verif_kani::ed_pos(ed) == 0x4000 && !crate::dir_entry::verif_kani::ed_dirty(ed));
+        assert!(*crate::dir_entry::verif_kani::ed_data(ed).name() == alias);
+    }
+    assert!(fs.disk.borrow().nlog == 0);
+    kani::cover!(r.is_ok());
+    core::mem::forget(r);
+    core::mem::forget(parent);
+    core::mem::forget(fs);
 }
